@@ -626,3 +626,57 @@ k_c07_range_seek_inv!(k_c07_range_seek_inv_u8_u16_p4, u8, u16, u8, 4);
 k_c07_range_seek_inv!(k_c07_range_seek_inv_u8_u16_p8, u8, u16, u8, 8);
 k_c07_range_seek_inv!(k_c07_range_seek_inv_u16_u32_p12, u16, u32, u16, 12);
 k_c07_range_seek_inv!(k_c07_range_seek_inv_u32_u64_p24, u32, u64, u32, 24);
+
+/// C18 `c18_range_sizes`: from ANY raw encoder state (Normal or Inverted(n <= 3, w)) with `pre` words already in
+/// the sink: `num_words()` / `num_bits()` equal the length of what `into_compressed()` returns now, and
+/// `is_empty()` holds exactly when that is nothing.
+macro_rules! k_c18_range_sizes {
+    ($name:ident, $W:ty, $S:ty) => {
+        #[no_mangle]
+        pub extern "C" fn $name(lower: $S, range: $S, inverted: u8, n: u32, w: $W, pre: u32) -> u32 {
+            const NQ: usize = 10;
+            if pre > 2 {
+                return 1;
+            }
+            let st = match RangeCoderState::<$W, $S>::new(lower, range) {
+                Ok(s) => s,
+                Err(_) => return 1,
+            };
+            let wraps = lower.wrapping_add(range) <= lower;
+            let sit = if inverted != 0 {
+                if !wraps || n == 0 || n > 3 || w == <$W>::MAX {
+                    return 1;
+                }
+                EncoderSituation::Inverted(NonZeroUsize::new(n as usize).unwrap(), w)
+            } else {
+                if wraps {
+                    return 1;
+                }
+                EncoderSituation::Normal
+            };
+            let q = ArrQueue::<$W, NQ> { words: [7 as $W; NQ], len: pre as usize, rpos: 0 };
+            let enc = RangeEncoder::<$W, $S, _>::from_raw_parts(q, st, sit);
+            let claimed_words = enc.num_words();
+            let claimed_bits = enc.num_bits();
+            let claimed_empty = enc.is_empty();
+            let out = match enc.into_compressed() {
+                Ok(q) => q,
+                Err(_) => return 3,
+            };
+            if claimed_words != out.len {
+                return 4;
+            }
+            if claimed_bits != out.len * <$W>::BITS as usize {
+                return 5;
+            }
+            if claimed_empty != (out.len == 0) {
+                return 6;
+            }
+            0
+        }
+    };
+}
+k_c18_range_sizes!(k_c18_range_sizes_u8_u16, u8, u16);
+k_c18_range_sizes!(k_c18_range_sizes_u16_u32, u16, u32);
+k_c18_range_sizes!(k_c18_range_sizes_u32_u64, u32, u64);
+k_c18_range_sizes!(k_c18_range_sizes_u8_u32, u8, u32);
